@@ -538,6 +538,8 @@ def r7(tree, rep, tier):
 
 
 def run(tree, rep, tier):
+    from .. import sharedstate
+    sharedstate.check(tree, rep, "C01.R0")
     prog = Program(tree)
     r1(tree, rep)
     r2(tree, prog, rep)
